@@ -39,7 +39,8 @@ class DataView(DataSet):
                 "data object: {} != {}".format(len(slices), len(da.shape)),
             )
 
-        if self.valid and any(s.stop > e for s, e in zip(slices, da.data_extent)):
+        if self.valid and any(s.start < 0 or s.stop < s.start or s.stop > e
+                              for s, e in zip(slices, da.data_extent)):
             self._valid = False
             self._error_message = (
                 "OutOfBounds error!"
